@@ -16,6 +16,8 @@ REGS = {
 }
 REGS['r8'] = REGS['r6'] + [('Word', 6), ('Heap', 7)]
 REGS['r10'] = REGS['r8'] + [('Tiny', 8), ('Wide', 9)]
+# 17 components: identifiers of three bytes with one used bit in the last byte; random-only pool
+REGS['r17'] = REGS['r10'] + [('Zst', 10), ('Odd', 11), ('Word', 12), ('Heap', 13), ('Tiny', 14), ('Wide', 15), ('Heap', 16)]
 for _k, _base in (('p6a', 'r6'), ('p6b', 'r6'), ('p6c', 'r6'), ('p10', 'r10'), ('p1', 'r1'), ('t6', 'r6'), ('t10', 'r10')):
     REGS[_k] = REGS[_base]
 PAR_SLICE = {'p6a': (0, 3), 'p6b': (1, 3), 'p6c': (2, 3), 'p10': (0, 1), 'p1': (0, 1)}
@@ -294,9 +296,18 @@ def sample_shapes(name, n, rng):
     if n > 8:
         hi = ((1 << n) - 1) & ~0xff
         shapes |= {hi, 0xff, 0x80 | 0x100, 0x101, full & ~0x100}
+    if n > 16:
+        shapes |= {1 << 16, 0xffff, 0x10000 | 0x8000, 0x10001, full & ~0x10000, 0xff00, 0x10100}
     while len(shapes) < 64:
         m = rng.getrandbits(n)
-        if n > 8 and rng.random() < 0.7:
+        if n > 16:
+            # keep rows narrow enough to stay cheap, but straddle the byte boundaries
+            m &= rng.getrandbits(n) | rng.getrandbits(n) & rng.getrandbits(n)
+            if rng.random() < 0.6:
+                m |= 1 << 16
+            if rng.random() < 0.5:
+                m |= 1 << rng.randint(8, 15)
+        elif n > 8 and rng.random() < 0.7:
             m |= 1 << rng.randint(8, n - 1)
             m |= 1 << rng.randint(0, 7)
         shapes.add(m)
@@ -343,7 +354,7 @@ def emit(name, seed, nq, ne):
     obs_vec = 'vec![%s]' % ', '.join('c%d.map(|x| x.obs())' % i for i in range(n))
 
     # ---------------- queries
-    random_only = name.startswith('t')
+    random_only = name.startswith('t') or name == 'r17'
     queries = gen_queries(rng, n, nq, random_only)
     if par_mode:
         off, stride = PAR_SLICE[name]
